@@ -85,22 +85,22 @@ unchecked_new!(unchecked_new_l1, 1, 4);
 //@ harness: unchecked_new_l2 class=F tier=quick props=C10
 //@ clause: same, every 2-char ASCII string
 unchecked_new!(unchecked_new_l2, 2, 5);
-//@ harness: unchecked_new_l3 class=F tier=quick props=C10
+//@ harness: unchecked_new_l3 class=F tier=quick props=C10,C17,C06
 //@ clause: same, every 3-char ASCII string
 unchecked_new!(unchecked_new_l3, 3, 6);
-//@ harness: unchecked_new_l4 class=F tier=quick props=C10
+//@ harness: unchecked_new_l4 class=F tier=quick props=C10,C17,C06
 //@ clause: same, every 4-char ASCII string
 unchecked_new!(unchecked_new_l4, 4, 7);
-//@ harness: unchecked_new_l5 class=F tier=quick props=C10
+//@ harness: unchecked_new_l5 class=F tier=quick props=C10,C17,C06
 //@ clause: same, every 5-char ASCII string
 unchecked_new!(unchecked_new_l5, 5, 8);
-//@ harness: unchecked_new_l6 class=F tier=quick props=C10
+//@ harness: unchecked_new_l6 class=F tier=quick props=C10,C17,C06
 //@ clause: same, every 6-char ASCII string
 unchecked_new!(unchecked_new_l6, 6, 9);
-//@ harness: unchecked_new_l9 class=F tier=thorough props=C10
+//@ harness: unchecked_new_l9 class=F tier=thorough props=C10,C17,C06
 //@ clause: same, every 9-char ASCII string
 unchecked_new!(unchecked_new_l9, 9, 12);
-//@ harness: unchecked_new_l12 class=F tier=thorough props=C10
+//@ harness: unchecked_new_l12 class=F tier=thorough props=C10,C17,C06
 //@ clause: same, every 12-char ASCII string
 unchecked_new!(unchecked_new_l12, 12, 15);
 
